@@ -16,6 +16,17 @@ type Extension interface {
 	GetTrack(stopTimeUpdate *gtfsrt.TripUpdate_StopTimeUpdate) *string
 }
 
+// PerMessageExtension can be implemented by extensions that keep state while a message is processed.
+//
+// ParseRealtime calls ForMessage once for every message and uses the returned extension for
+// that message only, so state never leaks from one message into the next and an extension
+// value can be shared by concurrent ParseRealtime calls.
+type PerMessageExtension interface {
+	Extension
+
+	ForMessage() Extension
+}
+
 type UpdateTripResult struct {
 	// Whether this trip should be skipped.
 	ShouldSkip bool
